@@ -55,21 +55,22 @@ for o in opts:
         ids = opts[opts.index(o) + 1].split(",")
 if "--all" in opts:
     ids = [f"C{i:02d}" for i in range(1, 21)]
-assert sh("git diff --quiet", cwd="/repo").returncode == 0, "/repo dirty"
-a = sh(["git", "apply", diff], cwd="/repo")
+# the checks run against the scratch worktree itself (XMC_REPO), /repo is never touched
+a = sh(["git", "apply", diff], cwd=wt)
 if a.returncode:
-    print("diff does not apply to /repo:", a.stderr[:300]); sys.exit(2)
+    print("diff does not apply:", a.stderr[:300]); sys.exit(2)
 det = {}
+cenv = dict(os.environ, XMC_REPO=wt)
 try:
     for cid in ids:
-        p = sh(["/venv/bin/python", "-m", "xmc.run", cid, "--tier", os.environ.get("TIER", "quick"), "--no-evidence"], cwd="/verif")
+        p = sh(["/venv/bin/python", "-m", "xmc.run", cid, "--tier", os.environ.get("TIER", "quick"), "--no-evidence"], cwd="/verif", env=cenv)
         cls = re.search(r"recorded violation\(s\) in \d+ class\(es\): (.*)", p.stdout)
         det[cid] = dict(rc=p.returncode, classes=(cls.group(1)[:400] if cls else ""))
         print(f"   {cid}: rc={p.returncode} {'DETECTED' if p.returncode == 1 else 'silent' if p.returncode == 0 else 'HARNESS-ERROR'} {det[cid]['classes'][:200]}")
         if p.returncode == 2:
             print(p.stdout[-1500:])
 finally:
-    sh("git checkout -- .", cwd="/repo")
+    sh("git checkout -- .", cwd=wt)
 meta["checks"] = det
 meta["detected_by"] = [c for c, d in det.items() if d["rc"] == 1]
 meta["confirmed"] = ok_demo
@@ -86,4 +87,17 @@ for k in ("suite_with_patch", "needs", "what"):
 if "checks" in old:
     merged = dict(old["checks"]); merged.update(det); meta["checks"] = merged
     meta["detected_by"] = [c for c, d in merged.items() if d["rc"] == 1]
+notes_p = f"{wt}/out/notes.json"
+if os.path.exists(notes_p):
+    try:
+        n = json.load(open(notes_p)).get(mid, {})
+        for k in ("what", "needs"):
+            if n.get(k) and k not in meta:
+                meta[k] = n[k]
+        if n.get("suite") and "suite_with_patch" not in meta:
+            meta["suite_by_author"] = n["suite"]
+    except Exception as e:
+        print("notes.json unreadable:", e)
+if prefix and "origin" not in meta:
+    meta["origin"] = f"round {prefix[1:]}: sub-agent given the property record, the list of earlier mutants for it and a scratch worktree"
 json.dump(meta, open(f"{out}/meta.json", "w"), indent=1)
